@@ -470,6 +470,18 @@ class Engine:
             return v
         return self._new(name, z3.Real(name), lo, hi)
 
+    def boolvar(self, name):
+        """symbolic truth value (e.g. one entry of a symbolic subclass relation)"""
+        if name in self.inputs:
+            raise HarnessError('duplicate input %s' % name)
+        if self.concrete:
+            v = bool(self.given.get(name, False))
+            self.inputs[name] = v
+            return v
+        v = SBool(z3.Bool(name))
+        self.inputs[name] = v
+        return v
+
     def num(self, name, lo=None, hi=None, real=False):
         return self.real(name, lo, hi) if real else self.int(name, lo, hi)
 
@@ -823,12 +835,21 @@ def run_path(fn, params, prefix, prefix_terms, validate=False, want_sample=False
                 res.status, res.detail = 'error', 'concrete validation run: ' + cres['detail']
             else:
                 conc_notes = [norm_note(n) for n in cres['notes']]
-                if conc_notes != sym_notes or (cres['failed'] and not res.violations):
+                if conc_notes != sym_notes:
                     res.status = 'unfaithful'
                     res.detail = 'inputs %r\n symbolic: %r\n concrete: %r\n failed: %r' % (
                         inputs, sym_notes[:60], conc_notes[:60], cres['failed'])
                 else:
                     res.validated = 1
+                    # an obligation that fails on the real objects of the concrete run is a
+                    # counterexample in its own right (it can only be missed symbolically where
+                    # a family replaces something by a symbolic stub)
+                    have = set(v.label for v in res.violations)
+                    for label in cres['failed']:
+                        if label not in have:
+                            have.add(label)
+                            res.violations.append(Violation(
+                                label, inputs, 'found by the concrete validation run'))
     finally:
         _drain()
         gc.enable()
